@@ -79,14 +79,9 @@ def Statement_no_new_errors (mode : Mode) (compute : Key → V) : Prop :=
 
 /-! #### the code as it is: the statement is false -/
 
-/-- the witness: the cache already holds one entry; thread 0 looks up another key and has fetched
+/- the witness (`cexDq`, `cexProgs`, `cexSched`, defined in Model/Interleave.lean): the cache already holds one entry; thread 0 looks up another key and has fetched
 and compared that entry (idle→start, start→iter, next, compare) when thread 1 runs a whole call for
 a third key (miss, compute, append); thread 0's next `next()` sees the changed deque version. -/
-def cexDq : Cache Key := [(.transpose [1, 0, 2], .transpose [1, 0, 2])]
-
-def cexProgs : List (List Key) := [[.transpose [2, 1, 0]], [.transpose [0, 2, 1]]]
-
-def cexSched : List Nat := [0, 0, 0, 0, 1, 1, 1, 1, 1, 1, 1, 0]
 
 /-- **cache_iter_race_counterexample.** A concrete 2-thread schedule on the current code in which a
 call that succeeds when run alone ends with RuntimeError (deque mutated during iteration). -/
